@@ -4,9 +4,10 @@ current directory under a perturbed environment.
   python -m verifsim.idsdump ids  <perm_seed> <sandbox 0|1>     -> JSON on stdout
   python -m verifsim.idsdump cli  <perm_seed> <bob args...>     -> runs the real CLI
 
-PYTHONHASHSEED is whatever the caller put into the environment; directory
-listings used by the recipe parser (os.walk in bob.input) are returned in a
-permutation derived from perm_seed.
+PYTHONHASHSEED is whatever the caller put into the environment; every directory
+listing of the process (os.scandir / os.listdir, hence os.walk of the recipe
+parser and glob of the script include resolver) is returned in a permutation
+derived from perm_seed.
 """
 
 import asyncio
@@ -16,24 +17,43 @@ import os
 import random
 import sys
 
+class _Listing:
+    """os.scandir() result in an order chosen by the simulator."""
+    def __init__(self, entries):
+        self._it = iter(entries)
+    def __iter__(self):
+        return self
+    def __next__(self):
+        return next(self._it)
+    def __enter__(self):
+        return self
+    def __exit__(self, *a):
+        return False
+    def close(self):
+        pass
+
 def _install(perm_seed):
+    """Directory listing order is a seam: os.scandir / os.listdir (and with them
+    os.walk, glob and everything else built on them) return their entries in a
+    permutation derived from perm_seed (0: ascending byte order)."""
     repo = os.environ.get("VERIF_REPO", "/repo")
     sys.path.insert(0, os.path.join(repo, "pym"))
-    import bob.input as I
     rng = random.Random(perm_seed)
-    real_walk = os.walk
-    class OsProxy:
-        def __getattr__(self, k):
-            return getattr(os, k)
-        def walk(self, top, *a, **kw):
-            for root, dirs, files in real_walk(top, *a, **kw):
-                if perm_seed:
-                    rng.shuffle(files)
-                    rng.shuffle(dirs)
-                else:
-                    files.sort(); dirs.sort()
-                yield root, dirs, files
-    I.os = OsProxy()
+    real_scandir, real_listdir = os.scandir, os.listdir
+    def order(lst, key):
+        lst.sort(key=key)
+        if perm_seed:
+            rng.shuffle(lst)
+        return lst
+    def scandir(path="."):
+        with real_scandir(path) as it:
+            entries = list(it)
+        return _Listing(order(entries, lambda e: os.fsencode(e.name)))
+    def listdir(path="."):
+        return order(real_listdir(path), os.fsencode)
+    os.scandir = scandir
+    os.listdir = listdir
+    import bob.input as I
     return I
 
 def dump_ids(perm_seed, sandbox):
